@@ -25,6 +25,12 @@ CLAIMED["C04"] = dict(
     technique="Lean 4 inductive-invariant proof over an LTS + trace-acceptance correspondence under controlled schedules",
     design="DESIGN.md section 4, C04")
 
+CLAIMED["C05"] = dict(
+    text="Lean 4 invariant proof over an LTS of cond wait/signal/broadcast (condition queue at shared-access granularity, abstract mutex as established by C04), unbounded threads, all interleavings: atomic release-and-wait (a thread inside wait that is not yet dequeued either still holds the mutex or is on the queue), a signal/broadcast issued under the mutex is never missed, signal dequeues exactly the head or is a no-op on an empty queue, broadcast returns only after every thread queued at its start was dequeued, dequeued threads are pushed exactly once, no resume without a signal, wait returns only by re-acquiring the mutex. Tie: bounded-buffer / gate / turnstile programs under the schedule controller; traces accepted step by step by the cond model and the mutex model; counters/occupancy/deadlock oracle on the implementation.",
+    note="Trusted: Lean kernel; schedule controller (SC interleavings at point granularity); abstract mutex (C04 links it to the real one, the acceptor cross-checks every acquire against holder = none); sleep-queue spin lock collapsed to atomic enq/deq. myth_cond_timedwait is unimplemented() in the code.",
+    technique="Lean 4 inductive-invariant proof over an LTS + trace-acceptance correspondence under controlled schedules",
+    design="DESIGN.md section 4, C05")
+
 NA_REASON = "not yet claimed in this revision: model/theorems/correspondence for this property are still being built (see DESIGN.md section 8 build order); no other technique is substituted"
 
 
